@@ -100,6 +100,18 @@ def address_corpus(tier, seed, model, cross=True):
         for l in (b"a" * n, b'"' + b"a" * max(0, n - 2) + b'"', (b"ab." * n)[:n - 1] + b"a", "é".encode() * (n // 2) + b"a" * (n % 2)):
             for d in (b"a.bc", b"[1.2.3.4]", "почта.рф".encode()):
                 out.add(l + b"@" + d)
+    # every byte value at every position of a few accepted addresses (substitution)
+    for base in (b"a@[IPv6:1:2:3:4:5:6:7:8]", b"ab@[1.2.3.4]", '"q.r"@почта.рф'.encode(), b"a.b@example.com"):
+        for i in range(len(base)):
+            for c in range(1, 256):
+                if tier == "quick" and c % 2 and c > 0x20 and c < 0x7f and chr(c).isalnum():
+                    continue
+                out.add(base[:i] + bytes([c]) + base[i + 1:])
+    # accepted U-label domains that are long in UTF-8 (> 255 bytes) while their A-label form fits
+    for ch, nlab, rep in (("中", 5, 19), ("ж", 6, 24), ("가", 5, 18), ("é", 7, 20)):
+        d = ".".join([ch * rep] * nlab) + ".com"
+        out.add(b"user@" + d.encode("utf-8"))
+        out.add(b"user@" + d.encode("utf-8") + b".")
     corp = gen.corpus_addresses()
     out.update(corp)
     for a in corp:
